@@ -931,6 +931,68 @@ def m_exc_init(it, args, kw):
     return it.call_real(BaseException.__init__, list(args), kw)
 
 
+# ------------------------------------------------------------------ struct (A12: format characters < x B H)
+import struct as _struct  # noqa: E402
+
+
+def _struct_fields(fmt):
+    if not isinstance(fmt, str) or not fmt.startswith("<") or any(c not in "xBH" for c in fmt[1:]):
+        raise Unsupported(f"struct format {fmt!r}")
+    return fmt[1:]
+
+
+@model(_struct.pack)
+def m_struct_pack(it, args, kw):
+    if _concrete(args):
+        return it.call_real(_struct.pack, list(args), kw)
+    fields = _struct_fields(args[0])
+    vals = list(args[1:])
+    out = []
+    for c in fields:
+        if c == "x":
+            out.append(0)
+            continue
+        if not vals:
+            it.py_raise(_struct.error, "pack expected more items for packing")
+        v = vals.pop(0)
+        if not isinstance(v, (int, SInt, SBool)) or isinstance(v, bool) and False:
+            it.py_raise(_struct.error, "required argument is not an integer")
+        t = int_term(v)
+        hi = 255 if c == "B" else 65535
+        if not it.decide(z3.And(t >= 0, t <= hi)):
+            it.py_raise(_struct.error, f"'{c}' format requires 0 <= number <= {hi}")
+        if c == "B":
+            out.append(mk_int(t))
+        else:
+            out.append(mk_int(t % 256))
+            out.append(mk_int(t / 256))
+    if vals:
+        it.py_raise(_struct.error, "pack got too many items")
+    return SByteList(out)
+
+
+@model(_struct.unpack)
+def m_struct_unpack(it, args, kw):
+    if _concrete(args):
+        return it.call_real(_struct.unpack, list(args), kw)
+    fields = _struct_fields(args[0])
+    data = list(args[1])
+    need = sum(2 if c == "H" else 1 for c in fields)
+    if len(data) != need:
+        it.py_raise(_struct.error, f"unpack requires a buffer of {need} bytes")
+    out, i = [], 0
+    for c in fields:
+        if c == "x":
+            i += 1
+        elif c == "B":
+            out.append(data[i])
+            i += 1
+        else:
+            out.append(mk_int(int_term(data[i]) + 256 * int_term(data[i + 1])))
+            i += 2
+    return tuple(out)
+
+
 # ------------------------------------------------------------------ functools / collections
 import collections  # noqa: E402
 import functools  # noqa: E402
